@@ -78,47 +78,64 @@ Proof.
 Qed.
 
 (* ---------------------------------------------------------------------------------------------- *)
-(* The catalogue look-up on the query path and the handle unwrap in the flush thread (Model/ConcSMCat.v).   *)
-(* full statements: refuted by the faithful model *)
-Definition C10_query_no_panic_statement : Prop :=
+(* The catalogue look-up on the query path and the handle unwrap in the flush thread (Model/ConcSMCat.v),  *)
+(* on the code as repaired by 3a6284a (catalogue look-ups by `get`) and 7a0a728 (flush skips placeholders). *)
+
+(* No query ever panics: for every column set, every schedule, absent columns and evictions included
+   (before 3a6284a this was refuted in the two windows of finding F14a). *)
+Theorem C10_query_no_panic :
   forall C nd nq sched st, crun C sched (cinit C nd nq) = Some st -> query_panicked st = false.
+Proof. intros C nd nq sched st. apply query_never_panics. Qed.
+
+(* Without evictions (KnownClass = the schedule contains an eviction), for all schedules and all queried
+   columns - columns a partition lacks and columns that exist nowhere included: nobody panics, no query is
+   answered with an existing column reported as absent (so `None => true` in subpartition_has_been_loaded is
+   sound: a partition that left the catalogue has been read completely by the compaction), the compaction loses
+   nothing and every catalogue entry stores every column.  Covers the former F14a windows and the F14 schedule. *)
+Theorem C10_no_panic_no_loss_guarded :
+  forall C nd nq sched st,
+    sched_evicts sched = false ->
+    crun C sched (cinit C nd nq) = Some st ->
+    query_panicked st = false /\ query_wrong st = false /\ flush_panicked st = false /\ data_lost C st = false.
+Proof.
+  intros C nd nq sched st HE H. apply (cinv_safe C). eapply cinv_run; [apply cinv_init|exact HE|exact H].
+Qed.
+
+(* the former witnesses of F14a (not yet / no longer in the catalogue) and F14 (placeholder) now run to the end:
+   the queries finish, the flush persists partition 0 with both columns *)
+Theorem C10_former_witnesses_pass :
+  (exists st, crun Cw sched_not_yet (cinit Cw 0 1) = Some st /\
+              query_panicked st = false /\ query_wrong st = false /\ cqs st = [CQ_idle]) /\
+  (exists st, crun Cw sched_no_longer (cinit Cw 2 1) = Some st /\
+              query_panicked st = false /\ query_wrong st = false /\ cqs st = [CQ_idle]) /\
+  (exists st, crun Cw sched_placeholder (cinit Cw 0 1) = Some st /\
+              flush_panicked st = false /\ cat st = [(0, [0; 1])]).
+Proof. exact (conj sched_not_yet_ok (conj sched_no_longer_ok sched_placeholder_ok)). Qed.
+
+(* full statements: still refuted by the faithful model when a column is evicted while its partition is
+   registered in the table but not in the catalogue (finding F14b) *)
+Definition C10_query_sees_existing_columns_statement : Prop :=
+  forall C nd nq sched st, crun C sched (cinit C nd nq) = Some st -> query_wrong st = false.
 Definition C10_flush_no_panic_statement : Prop :=
   forall C nd nq sched st, crun C sched (cinit C nd nq) = Some st -> flush_panicked st = false.
+Definition C10_no_data_loss_statement : Prop :=
+  forall C nd nq sched st, crun C sched (cinit C nd nq) = Some st -> data_lost C st = false.
 
-(* F14a: a query for a column the merged partition lacks, issued after Table::compact and before
-   prepare_compact; a query still holding merged-away partitions after prepare_compact; F14b: a query for a
-   PRESENT column of a freshly registered partition whose columns were evicted before persist_partitions *)
-Theorem C10_query_no_panic_refuted :
-  (exists st, crun Cw witness_not_yet (cinit Cw 0 1) = Some st /\ query_panicked st = true) /\
-  (exists st, crun Cw witness_no_longer (cinit Cw 2 1) = Some st /\ query_panicked st = true) /\
-  (exists st, crun Cw witness_evicted_query (cinit Cw 0 1) = Some st /\ query_panicked st = true) /\
-  ~ C10_query_no_panic_statement.
-Proof.
-  split; [exact witness_not_yet_panics|split; [exact witness_no_longer_panics|split; [exact witness_evicted_query_panics|]]].
-  intro S. destruct witness_not_yet_panics as (st & R & P). rewrite (S _ _ _ _ _ R) in P. discriminate.
-Qed.
-
-(* F14: a query inserts a placeholder handle into the freshly registered partition; the flush thread unwraps it *)
-Theorem C10_flush_no_panic_refuted :
-  (exists st, crun Cw witness_placeholder (cinit Cw 0 1) = Some st /\ flush_panicked st = true) /\
+(* F14b on the repaired code: the query no longer panics but is answered with the evicted column reported as
+   absent (NULLs); the flush thread still unwraps a dropped column; and if a query touched the evicted column
+   first, the flush skips it as a placeholder and persists the partition WITHOUT the column *)
+Theorem C10_eviction_refuted :
+  (exists st, crun Cw witness_evicted_query (cinit Cw 0 1) = Some st /\ query_wrong st = true) /\
   (exists st, crun Cw witness_evicted_flush (cinit Cw 0 1) = Some st /\ flush_panicked st = true) /\
-  ~ C10_flush_no_panic_statement.
+  (exists st, crun Cw witness_evicted_lost (cinit Cw 0 1) = Some st /\
+              flush_panicked st = false /\ data_lost Cw st = true /\ cat st = [(0, [1])]) /\
+  ~ C10_query_sees_existing_columns_statement /\ ~ C10_flush_no_panic_statement /\ ~ C10_no_data_loss_statement.
 Proof.
-  split; [exact witness_placeholder_panics|split; [exact witness_evicted_flush_panics|]].
-  intro S. destruct witness_placeholder_panics as (st & R & P). rewrite (S _ _ _ _ _ R) in P. discriminate.
-Qed.
-
-(* guarded: as long as queries only reference columns that every batch carries and nothing is evicted
-   (KnownClass = some query references a column outside C, or the schedule contains an eviction), neither a
-   query nor the flush thread panics, for all schedules *)
-Theorem C10_no_panic_guarded :
-  forall C nd nq sched st,
-    (forall c, In c (sched_cols sched) -> In c C) -> sched_evicts sched = false ->
-    crun C sched (cinit C nd nq) = Some st ->
-    query_panicked st = false /\ flush_panicked st = false.
-Proof.
-  intros C nd nq sched st HC HE H. apply (cinv_no_panic C).
-  eapply cinv_run; [apply cinv_init|exact HC|exact HE|exact H].
+  split; [exact witness_evicted_query_wrong|split; [exact witness_evicted_flush_panics|split; [exact witness_evicted_lost_loses|]]].
+  split; [|split].
+  - intro S. destruct witness_evicted_query_wrong as (st & R & P). rewrite (S _ _ _ _ _ R) in P. discriminate.
+  - intro S. destruct witness_evicted_flush_panics as (st & R & P). rewrite (S _ _ _ _ _ R) in P. discriminate.
+  - intro S. destruct witness_evicted_lost_loses as (st & R & _ & P & _). rewrite (S _ _ _ _ _ R) in P. discriminate.
 Qed.
 
 (* ---------------------------------------------------------------------------------------------- *)
